@@ -470,6 +470,12 @@ def deriv_check(ctx, repo, c, construct_prefix):
 
 def run(ctx):
     repo = ctx.repo
+    # ---- a transform is a function of its argument: it never writes into the array it was given (the caller's x would no longer be the
+    #      pre-image of the returned y, and inverse(forward(x)) is compared with an x that has changed)
+    from ..report import reuse
+    from . import c10
+    reuse(ctx, lambda c: c10.own_rule(c, only_module="aspire.transforms"), ("C10.own",), "C04own",
+          "ownership rule shared with C10: forward / inverse / fit must leave the caller's array untouched")
     from . import cachecoh
     cachecoh.rule(ctx, "C04.stale", ("aspire.transforms",), "the reported log-Jacobian is that of an earlier fit, not of the map now applied")
     # ---- every constructor parameter of a transform takes effect: it is stored, read, or handed to super().__init__ (a parameter that is
@@ -813,6 +819,10 @@ MUTANTS += [
 MUTANTS += [
     M("overflow-safe sigmoid with a wrong Jacobian", _U, "x = xp.divide(1, 1 + xp.exp(-x))\n    log_j = (xp.log(x) + xp.log1p(-x)).sum(-1)\n    return x, log_j",
       "abs_x = xp.abs(x)\n    exp_neg = xp.exp(-abs_x)\n    y = xp.where(x >= 0, 1 / (1 + exp_neg), exp_neg / (1 + exp_neg))\n    log_j = -(abs_x + xp.log1p(exp_neg)).sum(-1)\n    return y, log_j", ("C04.anti", "C04.deriv")),
+]
+MUTANTS += [
+    M("composite inverse coerces its input instead of copying it", "src/aspire/transforms.py", "def inverse(self, x):\n        x = copy_array(x, xp=self.xp)\n        x = self.xp.atleast_2d(x)",
+      "def inverse(self, x):\n        x = self.xp.asarray(x)\n        x = self.xp.atleast_2d(x)", "C04own.own"),
 ]
 NEUTRALS = [
     M("overflow-safe sigmoid with the right Jacobian", _U, "x = xp.divide(1, 1 + xp.exp(-x))\n    log_j = (xp.log(x) + xp.log1p(-x)).sum(-1)\n    return x, log_j",
